@@ -392,7 +392,6 @@ class ContReplay:
     def step(self, w, hist, n, rets, verify):
         e = hist[n - 1]
         st = self.states[hkey(hist[:n])]
-        prev = self.states[hkey(hist[:n - 1])]
         op = e["op"]
         if verify:
             self.nstep += 1
@@ -400,7 +399,12 @@ class ContReplay:
             self.count[k] = self.count.get(k, 0) + 1
         info = self.describe(hist, n) if verify else None
         want = st.files() if verify else None
-        before = prev.files() if verify else None
+        # "a refused call changes nothing" is decided on the real container itself: its files before the call
+        before = None
+        if verify and (op == "apply_window" or (op == "select" and e["must"] == "refuse") or (op == "set_file" and e["class"] == "after_selection")):
+            before, _ = self.proj(w)
+            if before is None:
+                return False
         if op == "select":
             kw = kwargs_of(e["arg"], e["flag"], variant=self.nstep)
             r, ex, site = call(w.select_bands, **kw)
@@ -865,6 +869,8 @@ def record_calls(rep, vio, rng, n, info):
             rec = dict(kind="file", obj=to_json_obj(o), sel=sl, out=dict(err="" if ex is None else type(ex).__name__))
             if ex is None:
                 gp, prob = try_project(x, cls)
+                if gp is not None and not W.shapes_ok(x, cls):
+                    gp, prob = None, "tables do not have the sizes NB / NW / NNB say"       # (such an object cannot be written as a record)
                 if gp is None:
                     vio.violation(f"{cls.upper()}.select_bands:recorded:result", dict(cls=cls, dims=o["dim"], selected_bands=sl, problem=prob))
                     continue
@@ -878,7 +884,7 @@ def record_calls(rep, vio, rng, n, info):
         if kind == "cont":
             flavour = FLAVOURS[ncont % len(FLAVOURS)]
             nfirst = 1 if flavour == "again_refused" else 0 if flavour in ("no_eig", "wannierised") else (ncont // len(FLAVOURS)) % 2
-            objs, par = rand_container(rng, need_eig=(flavour != "no_eig"), wannierised=(flavour == "wannierised"), plain=(flavour != "wannierised"))
+            objs, par = rand_container(rng, need_eig=(flavour != "no_eig"), wannierised=(flavour == "wannierised"), plain=True)
         else:
             flavour = None
             nfirst = (1, 2, 2, 0, 3)[nlater % 5]
@@ -914,6 +920,11 @@ def record_calls(rep, vio, rng, n, info):
             nb = len(sl)
         if not ok:
             continue
+        ragged = [k for k, v in W.files_of(w).items() if k in W.BAND_CARRYING and not W.shapes_ok(v, k)]
+        if ragged:
+            vio.violation("WannierData.select_bands:recorded:files", dict(files=sorted(objs), sizes=par, selections=rets,
+                                                                         problem=f"tables of {ragged} do not have the sizes NB / NW / NNB say"))
+            continue
         if kind == "later":
             if "amn" not in objs:
                 objs_amn = rand_obj(rng, "amn", par["nk"], par["nb"], par["nw"], 2, par["ks"])
@@ -943,6 +954,8 @@ def record_calls(rep, vio, rng, n, info):
             rec = dict(kind="later", how=how, fresh=to_json_obj(fresh), rets=rets, out=dict(err="" if ex is None else type(ex).__name__))
             if ex is None:
                 gp, prob = try_project(w.get_file("amn"), "amn")
+                if gp is not None and not W.shapes_ok(w.get_file("amn"), "amn"):
+                    gp, prob = None, "tables do not have the sizes NB / NW say"
                 if gp is None:
                     vio.violation(f"{how}:recorded:result", dict(problem=prob))
                     continue
@@ -955,7 +968,7 @@ def record_calls(rep, vio, rng, n, info):
             continue
         try:
             before = cont_project(w)
-        except (ValueError, TypeError) as ex:
+        except (ValueError, TypeError):
             info.note("records:cannot_project_the_container")
             continue
         en = {k: v for k, v in before["eig"]["dic"]["data"].items()} if "eig" in before else None
@@ -971,6 +984,9 @@ def record_calls(rep, vio, rng, n, info):
         try:
             after = cont_project(w)
             ret = [] if ex is not None else as_ints(r)
+            ragged = [k for k, v in W.files_of(w).items() if k in W.BAND_CARRYING and not W.shapes_ok(v, k)]
+            if ragged:
+                raise ValueError(f"tables of {ragged} do not have the sizes NB / NW / NNB say")
         except (ValueError, TypeError) as pex:
             vio.violation("WannierData.select_bands:recorded:files", dict(files=sorted(objs), sizes=par, kwargs=show_kwargs(kw), problem=exc(pex)))
             continue
